@@ -8,3 +8,9 @@ except ImportError:
     extract_tables = None
 if extract_tables is not None:
     extract_tables.regen_all()
+try:
+    import extract_sources
+except ImportError:
+    extract_sources = None
+if extract_sources is not None:
+    extract_sources.regen()
